@@ -36,6 +36,8 @@ func (v Value) String() string {
 		return "num(" + fmtFloat(v.F) + ")"
 	case "str":
 		return fmt.Sprintf("str(%q)", v.S)
+	case "panic":
+		return "aborted"
 	}
 	return "other(" + v.Note + ")"
 }
@@ -66,6 +68,8 @@ func (v Value) Equal(w Value) bool {
 		return v.F == w.F
 	case "str":
 		return v.S == w.S
+	case "panic":
+		return true
 	}
 	return false
 }
